@@ -63,6 +63,19 @@ def check(rec, gname, ordered=False):
               smearing_subsamples=max(sig["smear"], 1))
     raised = False
     for r, sel in enumerate(rec["sels"]):
+        if r == 1 and rec.get("retime", -1) >= 0:
+            # between the two injections the start times change (overwrite_times with a new slew time, or one frame's
+            # start time assigned directly): the second injection owes the offsets of the start times as they are now
+            if rec["retime"] == 7:
+                frames[-1].t_start = frames[-1].t_start + 2 * g["dt"]
+            else:
+                c.t_slew = rec["retime"] * g["dt"]
+                c.overwrite_times()
+            for i, f in enumerate(frames):
+                e = TBASE + rec["starts2"][i] * g["dt"]
+                if abs(f.t_start - e) > 4 * np.spacing(e) * max(1, i):
+                    raise Div("retime.t_start[%d]" % i, e, f.t_start)
+            t00 = [f.t_start for f in frames]
         calls[0] = 0
         armed[0] = (r == len(rec["sels"]) - 1)
         try:
